@@ -47,6 +47,9 @@ type WorkerPool struct {
 
 	// mutex is used to synchronize access to the WorkerPool.
 	mutex syncutils.RWMutex
+
+	// startMutex serializes calls of Start (a Start waits for the workers of the previous run without holding mutex).
+	startMutex syncutils.Mutex
 }
 
 // New creates a new WorkerPool with the given name and returns it.
@@ -66,17 +69,25 @@ func New(name string, opts ...options.Option[WorkerPool]) *WorkerPool {
 
 // Start starts the WorkerPool.
 func (w *WorkerPool) Start() *WorkerPool {
+	w.startMutex.Lock()
+	defer w.startMutex.Unlock()
+
+	// only Start sets isRunning and calls of Start are serialized: a stopped pool stays stopped until it is started below
+	if w.isRunning.Load() {
+		return w
+	}
+
+	// wait for the workers of the previous run without holding the mutex: the tasks that they still execute may call
+	// Submit, which would block forever behind a Start that holds the mutex
+	w.ShutdownComplete.Wait()
+
 	w.mutex.Lock()
 	defer w.mutex.Unlock()
 
-	if !w.isRunning.Load() {
-		w.ShutdownComplete.Wait()
+	w.isRunning.Store(true)
 
-		w.isRunning.Store(true)
-
-		w.startDispatcher()
-		w.startWorkers()
-	}
+	w.startDispatcher()
+	w.startWorkers()
 
 	return w
 }
